@@ -5,3 +5,4 @@ import Driver.Sess
 import Driver.Wait
 import Driver.Wire
 import Driver.Sched
+import Driver.SessIn
